@@ -116,6 +116,38 @@ func c11SchedGen(r *Rng, i int) c11Case {
 	return c
 }
 
+// c11Exec derives the scope the operation's path denotes from ts and performs the
+// operation on it (snapshots excepted); returns the derived scope.
+func c11Exec(ts tally.TestScope, o *c11Op) tally.Scope {
+	var sc tally.Scope = ts
+	for _, st := range o.P {
+		if st.T {
+			sc = c11Tagged(sc, st.M)
+		} else {
+			sc = sc.SubScope(string(st.N))
+		}
+	}
+	switch o.Op {
+	case "inc":
+		sc.Counter(string(o.N)).Inc(o.V)
+	case "upd":
+		sc.Gauge(string(o.N)).Update(math.Float64frombits(uint64(o.V)))
+	case "rec":
+		sc.Timer(string(o.N)).Record(time.Duration(o.V))
+	case "hv":
+		sc.Histogram(string(o.N), c11Buckets(false, o.Spec)).RecordValue(math.Float64frombits(uint64(o.V)))
+	case "hd":
+		sc.Histogram(string(o.N), c11Buckets(true, o.Spec)).RecordDuration(time.Duration(o.V))
+	case "close":
+		if sc != tally.NoopScope {
+			if cl, ok := sc.(io.Closer); ok {
+				cl.Close()
+			}
+		}
+	}
+	return sc
+}
+
 func c11SortTimers(evs []Ev) []Ev {
 	out := make([]Ev, len(evs))
 	for i, e := range evs {
@@ -137,34 +169,6 @@ func c11Sched(ctx *Ctx, c *c11Case) {
 	rf := &c11Ref{root: c11ID{string(c.Prefix), rootTags}, closed: map[string]bool{}, ents: map[string]*c11Ent{}}
 	ctl := NewCtl()
 	c11SetYield(ctl)
-	exec := func(o *c11Op) {
-		var sc tally.Scope = ts
-		for _, st := range o.P {
-			if st.T {
-				sc = c11Tagged(sc, st.M)
-			} else {
-				sc = sc.SubScope(string(st.N))
-			}
-		}
-		switch o.Op {
-		case "inc":
-			sc.Counter(string(o.N)).Inc(o.V)
-		case "upd":
-			sc.Gauge(string(o.N)).Update(math.Float64frombits(uint64(o.V)))
-		case "rec":
-			sc.Timer(string(o.N)).Record(time.Duration(o.V))
-		case "hv":
-			sc.Histogram(string(o.N), c11Buckets(false, o.Spec)).RecordValue(math.Float64frombits(uint64(o.V)))
-		case "hd":
-			sc.Histogram(string(o.N), c11Buckets(true, o.Spec)).RecordDuration(time.Duration(o.V))
-		case "close":
-			if sc != tally.NoopScope {
-				if cl, ok := sc.(io.Closer); ok {
-					cl.Close()
-				}
-			}
-		}
-	}
 	panics := make([]string, len(c.Threads))
 	for t := range c.Threads {
 		t := t
@@ -175,7 +179,7 @@ func c11Sched(ctx *Ctx, c *c11Case) {
 				}
 			}()
 			for i := range c.Threads[t] {
-				exec(&c.Threads[t][i])
+				c11Exec(ts, &c.Threads[t][i])
 			}
 		})
 	}
